@@ -2,7 +2,7 @@
 import Xrfmv.Drv.Common
 import Xrfmv.Model.FitLoop
 
-open Lean
+open Lean Xrfmv.Drv
 
 namespace Xrfmv.Drv.C03
 
